@@ -36,7 +36,7 @@ extern "C" int LLVMFuzzerTestOneInput(const uint8_t *data, size_t size) {
       case 5: v = "{\"a\":1}"; break; case 6: v = "\"\""; break; case 7: v = "\"!!!not*base64!!!\""; break;
       case 8: { std::string b = fdp.ConsumeBytesAsString(fdp.ConsumeIntegralInRange<int>(0, 70)); v = "\"" + b64u_enc(b) + "\""; break; }
       case 9: v = has ? jstr(cm[mn]) : "\"x\""; break;
-      case 10: { std::string s = fdp.ConsumeRandomLengthString(24); v = jstr(s); break; }
+      case 10: { std::string s = fdp.ConsumeRandomLengthString(24); if (!s.empty() && (s[0] & 3) == 0) s = "%s%s%s%s%n" + s; v = jstr(s); break; }
       }
       if (!strcmp(mn, "kid") && st == 9) v = "\"tag-" + std::to_string(ki) + "\"";
       if (!o.empty()) o += ",";
